@@ -44,7 +44,7 @@ use std::time::Duration;
 pub const META: PropMeta = PropMeta {
     id: "C17",
     level: "exploration",
-    rule: "case = payload (0..64 KiB, patterned) x SO_SNDBUF choice per direction x write/read chunk plans (plain or vectored, optional readable()/writable() await first) x topology (writer+reader tasks on two adapters; reader adapter fed synchronously; writer adapter drained synchronously; echo task alternating READ/WRITE on one adapter driven synchronously; echo task + ping-pong client task on two adapters) x scheduling order/gap x dispatch plan (count and timeout of dispatches per round) x injected spurious re-polls x blocking mode before adapt_io x adapter end (drop | into_inner; inside the task | after the tasks | after the loop was dropped). non-trivial: at least one WouldBlock on a write was observed (adapter poll_write Pending, or EAGAIN on the synchronous writer = payload larger than the send buffer) or an adapter switched its awaited interest (READ<->WRITE) at least once. distinct: by fingerprint of the normalised case",
+    rule: "case = payload (0..64 KiB, patterned) x SO_SNDBUF choice per direction x write/read chunk plans (plain or vectored, optional readable()/writable() await first) x topology (writer+reader tasks on two adapters; reader adapter fed synchronously; writer adapter drained synchronously; echo task alternating READ/WRITE on one adapter driven synchronously; echo task + ping-pong client task on two adapters) x scheduling order/gap x dispatch plan (count and timeout of dispatches per round) x injected spurious re-polls x injected abandoned waiters (an adapter operation first polled under a foreign waker, then under the task's own, before any dispatch) x blocking mode before adapt_io x adapter end (drop | into_inner; inside the task | after the tasks | after the loop was dropped). non-trivial: at least one WouldBlock on a write was observed (adapter poll_write Pending, or EAGAIN on the synchronous writer = payload larger than the send buffer) or an adapter switched its awaited interest (READ<->WRITE) at least once. distinct: by fingerprint of the normalised case",
     assumptions: &[
         "AF_UNIX SOCK_STREAM socketpair: poll(2) and epoll share the socket's poll function, so poll(2) readiness is the ground truth for what epoll must report after a one-shot re-arm",
         "a dispatch whose poller reports the executor's ping runs the woken task; hence two dispatches bound the distance from 'fd ready + interest armed' to 'task polled'",
@@ -88,6 +88,11 @@ pub struct Case {
     /// consumed one per Pending returned by an adapter operation: true = the task wakes itself
     /// (a spurious re-poll, as under select/join with another ready branch)
     pub spurious: Vec<bool>,
+    /// consumed one per poll of an adapter operation: true = the operation is first polled under a foreign
+    /// waker (a waiter that is then abandoned: select!/timeout loser, poll! probe, hand-over of the adapter to
+    /// another task) and, if that was Pending, polled again under the task's own waker before any dispatch
+    #[serde(default)]
+    pub foreign: Vec<bool>,
     /// schedule the B-side task first
     pub b_first: bool,
     /// rounds between the first and the second scheduling (single task: before its scheduling)
@@ -222,6 +227,11 @@ struct Shared {
     spurious: Vec<bool>,
     cursor: Cell<usize>,
     used: Cell<u64>,
+    foreign: Vec<bool>,
+    fcursor: Cell<usize>,
+    fused: Cell<u64>,
+    /// wake-ups that went to an abandoned (foreign) waker
+    fwoken: Rc<std::sync::atomic::AtomicU64>,
 }
 
 impl Shared {
@@ -236,6 +246,37 @@ impl Shared {
         }
         self.spurious[i]
     }
+    fn next_foreign(&self) -> bool {
+        let i = self.fcursor.get();
+        if i >= self.foreign.len() {
+            return false;
+        }
+        self.fcursor.set(i + 1);
+        self.foreign[i]
+    }
+}
+
+struct ForeignWake(Rc<std::sync::atomic::AtomicU64>);
+// the counter is only touched on the case's own thread; Rc inside an Arc<Wake> needs these
+unsafe impl Send for ForeignWake {}
+unsafe impl Sync for ForeignWake {}
+impl std::task::Wake for ForeignWake {
+    fn wake(self: std::sync::Arc<Self>) {
+        self.0.fetch_add(1, Ordering::Relaxed);
+    }
+}
+
+/// Poll one adapter operation, optionally first as an abandoned waiter under a foreign waker.
+fn polled<T>(st: &TaskSt, cx: &mut Context<'_>, mut op: impl FnMut(&mut Context<'_>) -> Poll<T>) -> Poll<T> {
+    if st.shared.next_foreign() {
+        let w = std::task::Waker::from(std::sync::Arc::new(ForeignWake(st.shared.fwoken.clone())));
+        let mut fcx = Context::from_waker(&w);
+        if let Poll::Ready(v) = op(&mut fcx) {
+            return Poll::Ready(v);
+        }
+        st.shared.fused.set(st.shared.fused.get() + 1);
+    }
+    op(cx)
 }
 
 struct TaskSt {
@@ -418,15 +459,17 @@ async fn a_read(io: &mut Io, buf: &mut [u8], vec: bool, st: &TaskSt) -> io::Resu
         st.vectored.set(st.vectored.get() + 1);
     }
     poll_fn(|cx| {
-        let r = if vec {
-            let cut = buf.len() / 3;
-            let (a, b) = buf.split_at_mut(cut);
-            let mut none: [u8; 0] = [];
-            let mut sl = [IoSliceMut::new(a), IoSliceMut::new(&mut none), IoSliceMut::new(b)];
-            Pin::new(&mut *io).poll_read_vectored(cx, &mut sl)
-        } else {
-            Pin::new(&mut *io).poll_read(cx, buf)
-        };
+        let r = polled(st, cx, |cx| {
+            if vec {
+                let cut = buf.len() / 3;
+                let (a, b) = buf.split_at_mut(cut);
+                let mut none: [u8; 0] = [];
+                let mut sl = [IoSliceMut::new(a), IoSliceMut::new(&mut none), IoSliceMut::new(b)];
+                Pin::new(&mut *io).poll_read_vectored(cx, &mut sl)
+            } else {
+                Pin::new(&mut *io).poll_read(cx, buf)
+            }
+        });
         st.note(cx, Want::Read, r.is_pending(), true);
         r
     })
@@ -438,13 +481,15 @@ async fn a_write(io: &mut Io, buf: &[u8], vec: bool, st: &TaskSt) -> io::Result<
         st.vectored.set(st.vectored.get() + 1);
     }
     poll_fn(|cx| {
-        let r = if vec {
-            let (a, b) = buf.split_at(buf.len() / 3);
-            let sl = [IoSlice::new(a), IoSlice::new(&[]), IoSlice::new(b)];
-            Pin::new(&mut *io).poll_write_vectored(cx, &sl)
-        } else {
-            Pin::new(&mut *io).poll_write(cx, buf)
-        };
+        let r = polled(st, cx, |cx| {
+            if vec {
+                let (a, b) = buf.split_at(buf.len() / 3);
+                let sl = [IoSlice::new(a), IoSlice::new(&[]), IoSlice::new(b)];
+                Pin::new(&mut *io).poll_write_vectored(cx, &sl)
+            } else {
+                Pin::new(&mut *io).poll_write(cx, buf)
+            }
+        });
         st.note(cx, Want::Write, r.is_pending(), true);
         r
     })
@@ -458,7 +503,7 @@ async fn a_ready(io: &mut Io, want: Want, st: &TaskSt) {
         Want::Read => {
             let mut f = io.readable();
             poll_fn(|cx| {
-                let r = Pin::new(&mut f).poll(cx);
+                let r = polled(st, cx, |cx| Pin::new(&mut f).poll(cx));
                 st.note(cx, want, r.is_pending(), false);
                 r
             })
@@ -467,7 +512,7 @@ async fn a_ready(io: &mut Io, want: Want, st: &TaskSt) {
         Want::Write => {
             let mut f = io.writable();
             poll_fn(|cx| {
-                let r = Pin::new(&mut f).poll(cx);
+                let r = polled(st, cx, |cx| Pin::new(&mut f).poll(cx));
                 st.note(cx, want, r.is_pending(), false);
                 r
             })
@@ -478,7 +523,7 @@ async fn a_ready(io: &mut Io, want: Want, st: &TaskSt) {
 
 async fn a_flush_close(io: &mut Io, st: &TaskSt) {
     let r = poll_fn(|cx| {
-        let r = Pin::new(&mut *io).poll_flush(cx);
+        let r = polled(st, cx, |cx| Pin::new(&mut *io).poll_flush(cx));
         st.note(cx, Want::Write, r.is_pending(), false);
         r
     })
@@ -487,7 +532,7 @@ async fn a_flush_close(io: &mut Io, st: &TaskSt) {
         st.fail(format!("poll_flush returned {e}"));
     }
     let r = poll_fn(|cx| {
-        let r = Pin::new(&mut *io).poll_close(cx);
+        let r = polled(st, cx, |cx| Pin::new(&mut *io).poll_close(cx));
         st.note(cx, Want::Write, r.is_pending(), false);
         r
     })
@@ -768,6 +813,8 @@ struct Stats {
     eagain_sync: u64,
     switches: u64,
     spurious_used: u64,
+    foreign_used: u64,
+    foreign_woken: u64,
     pre_awaits: u64,
     vectored: u64,
     eof_seen: bool,
@@ -865,7 +912,7 @@ fn run_inner(case: &Case) -> (Stats, Option<Violation>) {
     }
 
     let payload = Rc::new(make_payload(n.len, case.pat));
-    let shared = Rc::new(Shared { spurious: case.spurious.clone(), cursor: Cell::new(0), used: Cell::new(0) });
+    let shared = Rc::new(Shared { spurious: case.spurious.clone(), cursor: Cell::new(0), used: Cell::new(0), foreign: case.foreign.clone(), fcursor: Cell::new(0), fused: Cell::new(0), fwoken: Rc::new(std::sync::atomic::AtomicU64::new(0)) });
 
     let mut el: EventLoop<'static, ()> = EventLoop::try_new().expect("EventLoop::try_new");
     let handle = el.handle();
@@ -1242,6 +1289,8 @@ fn run_inner(case: &Case) -> (Stats, Option<Violation>) {
         stats.eof_seen |= t.eof_seen.get();
     }
     stats.spurious_used = shared.used.get();
+    stats.foreign_used = shared.fused.get();
+    stats.foreign_woken = shared.fwoken.load(Ordering::Relaxed);
     stats.eagain_sync = sync.as_ref().map(|s| s.eagain_w).unwrap_or(0);
     (stats, violation)
 }
@@ -1254,7 +1303,7 @@ pub fn run_case(case: &Case) -> CaseOutcome {
     info.fingerprint = fingerprint(&(
         (n.topo, n.len, case.pat, case.sndbuf_a.min(3), case.sndbuf_b.min(3)),
         (&n.wops, &n.rops, &n.srv_r, &n.srv_w, &n.hops),
-        (&case.spurious, case.b_first, case.gap, &n.plan),
+        (&case.spurious, &case.foreign, case.b_first, case.gap, &n.plan),
         (case.pre_nb_a, case.pre_nb_b, case.end_a & 7, case.end_b & 7, case.flush),
     ));
     info.nontrivial = s.wb_write > 0 || s.eagain_sync > 0 || s.switches > 0;
@@ -1282,6 +1331,12 @@ pub fn run_case(case: &Case) -> CaseOutcome {
     }
     if s.switches > 0 {
         info.classes.push("interest_switched_on_one_adapter");
+    }
+    if s.foreign_used > 0 {
+        info.classes.push("abandoned_waiter_then_own_poll");
+    }
+    if s.foreign_woken > 0 {
+        info.classes.push("abandoned_waker_woken");
     }
     if s.spurious_used > 0 {
         info.classes.push("spurious_repoll");
@@ -1367,14 +1422,14 @@ fn case_strategy() -> impl Strategy<Value = Case> {
     );
     let plans = (ops(), ops(), ops(), ops(), prop::collection::vec(size(), 0..=4));
     let sched = (
-        prop::collection::vec(prop::bool::weighted(0.35), 0..=12),
+        (prop::collection::vec(prop::bool::weighted(0.35), 0..=12), prop_oneof![2 => Just(vec![]), 3 => prop::collection::vec(prop::bool::weighted(0.3), 1..=16)]),
         any::<bool>(),
         0u8..=3,
         prop::collection::vec((0u8..=3, 0u8..=3), 1..=4),
     );
     let ends = (any::<bool>(), any::<bool>(), 0u8..=5, 0u8..=5, any::<bool>());
     (payload, plans, sched, ends).prop_map(
-        |((topo, len, pat, sndbuf_a, sndbuf_b), (wops, rops, srv_r, srv_w, hops), (spurious, b_first, gap, plan), (pre_nb_a, pre_nb_b, end_a, end_b, flush))| Case {
+        |((topo, len, pat, sndbuf_a, sndbuf_b), (wops, rops, srv_r, srv_w, hops), ((spurious, foreign), b_first, gap, plan), (pre_nb_a, pre_nb_b, end_a, end_b, flush))| Case {
             topo,
             len,
             pat,
@@ -1386,6 +1441,7 @@ fn case_strategy() -> impl Strategy<Value = Case> {
             srv_w,
             hops,
             spurious,
+            foreign,
             b_first,
             gap,
             plan,
@@ -1423,8 +1479,17 @@ pub fn check(ctx: &CheckCtx) -> Option<Found> {
     if let Some(f) = ctx.search("io_solo", case_strategy(), t.pick(150, 1_500), 1, None, run_case) {
         return Some(f);
     }
+    if t == crate::driver::Tier::Thorough {
+        if let Some(f) = crate::fuzz::campaign(ctx, &fuzz_subs(ctx), 20_000, 16) {
+            return Some(f);
+        }
+    }
     ctx.col.note("classes 'inconclusive:*' count cases that ended in a deadlock of the generated scenario or ran out of step budget; they are never violations. 'infra:fd_count_changed' is an infrastructure observation (fd count before/after a case that ran alone), not a C17 rule");
     None
+}
+
+pub fn fuzz_subs(_ctx: &CheckCtx) -> Vec<crate::fuzz::FuzzSub> {
+    vec![crate::fuzz::sub("io", case_strategy(), run_case)]
 }
 
 pub fn replay(_ctx: &CheckCtx, _sub: &str, case: serde_json::Value) -> Result<Option<Violation>, String> {
